@@ -485,13 +485,28 @@ class KEval:
             lp = Loop(st.target.id, lo, hi, step, st)
             env[st.target.id] = Poly.sym(st.target.id)
         elif isinstance(it, ast.Call) and isinstance(it.func, ast.Name) and it.func.id == "enumerate" and isinstance(st.target, ast.Tuple) and len(st.target.elts) == 2:
-            seq = self.ev(it.args[0], env, S, f, guards, loops, depth) if it.args else TOP
             iv, xv = st.target.elts
             name = iv.id if isinstance(iv, ast.Name) else "<idx>"
-            lp = Loop(name, ZERO, self.length_of(seq), ONE, st, "enumerate")
-            if isinstance(iv, ast.Name):
-                env[iv.id] = Poly.sym(iv.id)
-            self.bind_target(xv, self.element_of(seq, Poly.sym(name)), env)
+            inner = it.args[0] if it.args else None
+            if isinstance(inner, ast.Call) and isinstance(inner.func, ast.Name) and inner.func.id == "range" and inner.func.id not in env:
+                # enumerate(range(a, b[, c])): index k from 0, item a + k*c
+                ra = [self.scalar(self.ev(x, env, S, f, guards, loops, depth)) for x in inner.args]
+                lo, hi, stp = (ZERO, ra[0], ONE) if len(ra) == 1 else ((ra[0], ra[1], ONE) if len(ra) == 2 else (ra[0], ra[1], ra[2]))
+                if all(isinstance(x, Poly) for x in (lo, hi, stp)) and stp == ONE:
+                    lp = Loop(name, ZERO, hi - lo, ONE, st, "range")
+                    item = lo + Poly.sym(name)
+                else:
+                    lp = Loop(name, ZERO, TOP, ONE, st, "enumerate")
+                    item = TOP
+                if isinstance(iv, ast.Name):
+                    env[iv.id] = Poly.sym(iv.id)
+                self.bind_target(xv, item, env)
+            else:
+                seq = self.ev(inner, env, S, f, guards, loops, depth) if inner is not None else TOP
+                lp = Loop(name, ZERO, self.length_of(seq), ONE, st, "enumerate")
+                if isinstance(iv, ast.Name):
+                    env[iv.id] = Poly.sym(iv.id)
+                self.bind_target(xv, self.element_of(seq, Poly.sym(name)), env)
         else:
             seq = self.ev(it, env, S, f, guards, loops, depth)
             name = st.target.id if isinstance(st.target, ast.Name) else "<item>"
